@@ -17,6 +17,7 @@ import tempfile
 import traceback
 from typing import Any, Dict, Iterator, List, Optional, Tuple
 
+import hypothesis
 from hypothesis import strategies as st
 
 from vlib import fsaudit, mmgen, mmmut, runner, sut
@@ -115,10 +116,13 @@ BIN_MARK = "<BIN>"  # content marker: the file holds bytes that are not UTF-8
 
 
 def _m_extra_ctor_arg(draw: Any, text: str) -> Optional[str]:
-    r = mmmut._sub_nth(draw, text, r"(    def __init__\(\n        self,\n)", lambda m: m.group(1) + "        extra_q: int,\n")
-    if r is not None:
+    name = f"extra_q{draw(st.integers(0, 9))}"
+    if re.search(rf"\b{name}\b", text):
+        return None
+    r = mmmut._sub_nth(draw, text, r"(    def __init__\(\n        self,\n)", lambda m: m.group(1) + f"        {name}: int,\n")
+    if r is not None and draw(st.booleans()):
         return r
-    return mmmut._sub_nth(draw, text, r"def __init__\(self, ", "def __init__(self, extra_q: int, ")
+    return mmmut._sub_nth(draw, text, r"def __init__\(self, ", f"def __init__(self, {name}: int, ") or r
 
 
 def _m_dup_class(draw: Any, text: str) -> Optional[str]:
@@ -138,9 +142,14 @@ def _m_unknown_in_inv(draw: Any, text: str) -> Optional[str]:
 
 
 PLANTED = [_m_extra_ctor_arg, _m_extra_ctor_arg, _m_dup_class, _m_unknown_type, _m_unknown_in_inv]
+PLANTED_LATE = [_m_extra_ctor_arg, _m_extra_ctor_arg, _m_extra_ctor_arg, _m_unknown_in_inv]  # reported by the translation phase
 
 
-def _opts(draw: Any) -> mmgen.Opts:
+def _opts(draw: Any, plain: bool = False) -> mmgen.Opts:
+    if plain:
+        return mmgen.Opts(max_classes=draw(st.integers(3, 6)), max_props=draw(st.integers(2, 4)),
+                          docs=draw(st.sampled_from(["none", "plain"])),
+                          invariants=draw(st.sampled_from(["general", "schema", "none"])))
     return mmgen.Opts(
         max_classes=draw(st.integers(2, 6)),
         max_props=draw(st.integers(1, 4)),
@@ -153,8 +162,13 @@ def _opts(draw: Any) -> mmgen.Opts:
 
 @st.composite
 def cases(draw: Any) -> Dict[str, Any]:
-    kind = draw(st.sampled_from(["accepted"] * 4 + ["rejected"] * 5 + ["impl-missing"] * 2 + ["snippet-errors"]))
-    spec = draw(mmgen.specs(_opts(draw)))
+    kind = draw(st.sampled_from(["accepted"] * 4 + ["rejected"] * 3 + ["planted"] * 3 + ["impl-missing"] * 2 + ["snippet-errors"]))
+    spec = draw(mmgen.specs(_opts(draw, plain=(kind == "planted"))))
+    n_props = sum(len(c.props) for c in spec.classes)
+    if kind == "planted":
+        hypothesis.assume(len(spec.classes) >= 3 and n_props >= 4)
+    elif draw(st.integers(0, 7)) > 0:
+        hypothesis.assume(len(spec.classes) >= 2 and n_props >= 1)  # mostly: not the minimal models Hypothesis starts with
     if kind == "impl-missing":
         k = draw(st.integers(2, 3))
         for i in range(k):
@@ -163,6 +177,14 @@ def cases(draw: Any) -> Dict[str, Any]:
             spec.order.insert(draw(st.integers(0, len(spec.order))), ("fn", nm))
     text = mmgen.render(spec)
     muts = []  # type: List[str]
+    if kind == "planted":
+        # only semantic breaks that survive parsing: the errors come from the translation phase, several at once
+        for _ in range(draw(st.integers(1, 4))):
+            op = mmmut._pick(draw, PLANTED_LATE)
+            res = op(draw, text)
+            if res is not None:
+                text = res
+                muts.append(op.__name__)
     if kind == "rejected":
         other = mmgen.render(draw(mmgen.specs(mmgen.Opts(max_classes=3, max_props=2))))
         for _ in range(draw(st.integers(2, 4))):
